@@ -97,7 +97,7 @@ def determine_crosscut_abutting_relationships(
 
         if any(series.shape[0] == 0 for series in trace_series_two_sets):
             log.warning("Expected first_set and second_set to both contain traces.")
-            return relations_df
+            continue
         set_names_two_sets = (first_set, second_set)
         # determine_nodes_intersecting_sets returns a boolean array
         # representing nodes that intersect both sets.
